@@ -7,6 +7,7 @@ package main
 // The property: they are exactly the strings mrp was given.
 
 import (
+	"bytes"
 	"encoding/json"
 	"fmt"
 	"os"
@@ -40,7 +41,12 @@ func recordMain(args []string) {
 		}
 	}
 	b, _ := json.Marshal(out)
-	os.WriteFile(os.Getenv("VERIF_REC_OUT"), b, 0o644)
+	// atomically: a reader that sees the file sees all of it (the fake_remote template starts
+	// the command in the background, the harness may look while it is being written)
+	dst := os.Getenv("VERIF_REC_OUT")
+	if os.WriteFile(dst+".tmp", b, 0o644) == nil {
+		os.Rename(dst+".tmp", dst)
+	}
 }
 
 var c18Tokens = []string{"__MRO_MEM_GB__", "__MRO_ACCOUNT__", "__MRO_THREADS__", "__MRO_CMD__", "__MRO_RESOURCES__",
@@ -70,6 +76,9 @@ func c18Arg(c *Ctx) string {
 	}
 	if c.Rng.Intn(8) == 0 {
 		return "x" + c18Tokens[c.Rng.Intn(len(c18Tokens))] + "y"
+	}
+	if c.Rng.Intn(10) == 0 {
+		return c18GenLong(c)
 	}
 	return c18GenValid(c)
 }
@@ -112,7 +121,13 @@ func runC18Scripts(c *Ctx) {
 	for i := 0; i < n; i++ {
 		t := templates[i%len(templates)]
 		root := filepath.Join(c.Scratch, fmt.Sprintf("js%d", i))
-		work := filepath.Join(root, c18PathComponent(c), "files")
+		metaComp := c18PathComponent(c)
+		// pipestance directories whose name holds a newline: often for templates that keep the
+		// path off the `#` lines (there it must be harmless), now and then for the others (F31)
+		if nl := c.Rng.Intn(8); nl == 0 || (nl < 4 && !directiveHasPath(t.text)) {
+			metaComp = strings.ReplaceAll(c18PathComponent(c), "\n", "") + "\n" + strings.ReplaceAll(c18PathComponent(c), "\n", "")
+		}
+		work := filepath.Join(root, metaComp, "files")
 		meta := filepath.Dir(work)
 		if err := os.MkdirAll(work, 0o755); err != nil {
 			continue // e.g. name too long for the file system
@@ -149,6 +164,18 @@ func runC18Scripts(c *Ctx) {
 		r.hist("jobscript_" + t.name)
 		spath := filepath.Join(root, "job.sh")
 		os.WriteFile(spath, []byte(script), 0o755)
+		// a newline in the path of a template that carries it on a `#` line: whatever goes wrong
+		// then (command not run, run with other arguments / environment, stray output) is the
+		// known finding F31, not a new one
+		f31 := strings.Contains(meta, "\n") && directiveHasPath(t.text)
+		viol := func(v Violation) {
+			if f31 {
+				v.Impl = map[string]interface{}{"observed_as": v.Key, "detail": v.Impl}
+				v.Key = "C18:jobscript:newline-in-directive-path"
+				v.What = "a newline in the pipestance path ends the scheduler-directive comment line that carries the stdout/stderr path; the shell executes the rest of the path as code"
+			}
+			r.violate(v)
+		}
 		for _, sh := range shells {
 			outp := filepath.Join(root, "rec.json")
 			os.Remove(outp)
@@ -156,7 +183,10 @@ func runC18Scripts(c *Ctx) {
 			cmd.Dir = root
 			cmd.Env = []string{"PATH=/nonexistent", "HOME=/nonexistent", "VERIF_REC_OUT=" + outp,
 				"VERIF_REC_KEYS=" + strings.Join(keys, ",")}
-			stdout, _ := cmd.Output()
+			var outBuf, errBuf bytes.Buffer
+			cmd.Stdout, cmd.Stderr = &outBuf, &errBuf
+			runErr := cmd.Run()
+			stdout := outBuf.Bytes()
 			var got recordOut
 			b, err := os.ReadFile(outp)
 			if err != nil && strings.Contains(t.text, "&") {
@@ -187,13 +217,13 @@ func runC18Scripts(c *Ctx) {
 			input := map[string]interface{}{"template": t.name, "shell": sh[0], "program": prog, "argv": argv, "envs": envs,
 				"workdir": work, "script": script}
 			if err != nil && strings.Contains(meta, "\n") && directiveHasPath(t.text) {
-				r.violate(Violation{Kind: "property", Key: "C18:jobscript:newline-in-directive-path",
+				viol(Violation{Kind: "property", Key: "C18:jobscript:newline-in-directive-path",
 					What:  "a newline in the pipestance path ends the scheduler-directive comment line that carries the stdout/stderr path; the shell executes the rest of the path as code",
 					Input: input})
 				continue
 			}
 			if err != nil {
-				r.violate(Violation{Kind: "property", Key: "C18:jobscript:command-not-run:" + t.name,
+				viol(Violation{Kind: "property", Key: "C18:jobscript:command-not-run:" + t.name,
 					What:  "executing the rendered job script did not run the command (the recorder was never started)",
 					Input: input})
 				continue
@@ -201,20 +231,76 @@ func runC18Scripts(c *Ctx) {
 			wantCwd, _ := filepath.EvalSymlinks(work)
 			gotCwd, _ := filepath.EvalSymlinks(got.Cwd)
 			if gotCwd != wantCwd && strings.Contains(t.text, "__MRO_JOB_WORKDIR__") {
-				r.violate(Violation{Kind: "property", Key: "C18:jobscript:workdir",
+				viol(Violation{Kind: "property", Key: "C18:jobscript:workdir",
 					What: "the job did not run in the job's files directory", Input: input, Impl: got.Cwd, Expect: work})
 			}
 			if !equalStrs(got.Args, argv) {
-				r.violate(Violation{Kind: "property", Key: "C18:jobscript:argv",
+				viol(Violation{Kind: "property", Key: "C18:jobscript:argv",
 					What:  "the shell did not reproduce the argument vector from the job script",
 					Input: input, Impl: fmt.Sprintf("%q", got.Args), Expect: fmt.Sprintf("%q", argv)})
 			}
 			for k, v := range envs {
 				if got.Env[k] != v {
-					r.violate(Violation{Kind: "property", Key: "C18:jobscript:env",
+					viol(Violation{Kind: "property", Key: "C18:jobscript:env",
 						What:  "the shell did not reproduce an environment value from the job script",
 						Input: input, Impl: fmt.Sprintf("%q", got.Env[k]), Expect: fmt.Sprintf("%q", v)})
 				}
+			}
+			// ... and nothing else happened: exit status 0, nothing on stderr, on stdout only the
+			// pid the fake_remote template prints, no file or directory that the job did not ask for
+			var stray []string
+			background := strings.Contains(t.text, "& echo $!")
+			if runErr != nil {
+				stray = append(stray, "exit status: "+runErr.Error())
+			}
+			if errBuf.Len() > 0 {
+				stray = append(stray, "stderr: "+errBuf.String())
+			}
+			so := strings.TrimSpace(string(stdout))
+			if background {
+				if _, err := strconv.Atoi(so); err != nil {
+					stray = append(stray, "stdout is not one pid: "+string(stdout))
+				}
+			} else if so != "" {
+				stray = append(stray, "stdout: "+string(stdout))
+			}
+			rel := func(p string) string { // first path component below root
+				p = strings.TrimPrefix(p, root+"/")
+				if i := strings.IndexByte(p, '/'); i >= 0 {
+					p = p[:i]
+				}
+				return p
+			}
+			allowed := map[string]bool{"job.sh": true, "rec.json": true, rel(work): true, rel(prog): true}
+			if ents, err := os.ReadDir(root); err == nil {
+				for _, e := range ents {
+					if !allowed[e.Name()] {
+						stray = append(stray, "unexpected entry in the job's root directory: "+fmt.Sprintf("%q", e.Name()))
+					}
+				}
+			}
+			if ents, err := os.ReadDir(meta); err == nil {
+				for _, e := range ents {
+					n := e.Name()
+					if n == "files" || (background && (n == "_stdout" || n == "_stderr")) {
+						if n != "files" {
+							if b, _ := os.ReadFile(filepath.Join(meta, n)); len(b) > 0 {
+								stray = append(stray, "the job wrote to "+n+": "+string(b))
+							}
+						}
+						continue
+					}
+					stray = append(stray, "unexpected entry in the metadata directory: "+fmt.Sprintf("%q", n))
+				}
+			}
+			if len(stray) > 0 {
+				key, what := "C18:jobscript:side-effects:"+t.name, "executing the rendered job script did more than run the command with its arguments and environment"
+				if strings.Contains(meta, "\n") && directiveHasPath(t.text) {
+					key = "C18:jobscript:newline-in-directive-path"
+					what = "a newline in the pipestance path ends the scheduler-directive comment line that carries the stdout/stderr path; the shell executes the rest of the path as code"
+				}
+				viol(Violation{Kind: "property", Key: key, What: what, Input: input, Impl: stray,
+					Expect: "exit status 0, empty stderr, no output but the pid of a background job, no stray files"})
 			}
 		}
 		if len(r.Samples) < 10 && i < 2 {
